@@ -16,10 +16,13 @@ import json
 import os
 import random
 import re
+import time
+from concurrent.futures import ThreadPoolExecutor
 
 import vlib
 
 LANGS = ['html', 'xml', 'json', 'css', 'svg', 'js']
+MAX_ISOLATED = 16
 DELIMS = {0: [], 1: ['<%', '%>'], 2: ['<?', '?>'], 3: ['{{', '}}']}
 
 # ---- fragment table (identifiers and guard sets are defined in spec/OptGen.tla) -----------------
@@ -172,6 +175,19 @@ def default_opts():
     return o
 
 
+_MC = []
+
+
+def mc(ctx, module, cfg, **kw):
+    """exhaustive TLC run that must pass (as vlib.tlc_mc); statistics are added to the evidence by
+    the main thread (the generators run side by side)"""
+    r = vlib.tlc(ctx, module, cfg, **kw)
+    if r['invariant_violations'] or r['errors'] or not r['completed']:
+        raise vlib.Infra('design-level model checking of %s/%s did not pass:\n%s' % (module, cfg, r['out'][-3000:]))
+    _MC.append(r)
+    return r
+
+
 # ---- TLC output parsing ---------------------------------------------------------------------
 def parse_states(text):
     """states of a TLC -dump file or a -simulate trace file: list of {var: raw text}"""
@@ -193,7 +209,7 @@ def lexeme_pool(ctx):
     """number lexemes: every lexeme of NumGen up to its bound (TLC state dump), lexemes met on
     -simulate walks (long digit strings for the higher precisions), and a hand list"""
     dump = ctx.path('gen', 'num')
-    r = vlib.tlc_mc(ctx, 'NumGen', 'NumGen_c16.cfg', dump=dump, workers=2, timeout=600)
+    r = mc(ctx, 'NumGen', 'NumGen_c16.cfg', dump=dump, workers=2, timeout=600)
     lex = set()
     for st in parse_states(open(dump + '.dump').read()):
         if int(st['st']) in (2, 3, 4, 8):
@@ -215,6 +231,7 @@ def lexeme_pool(ctx):
     for lang, rx in NUM_RE.items():
         ok = sorted(x for x in lex if rx.match(x))
         pools[lang] = dict(N=ok, P=[x for x in ok if x[0] not in '+-'])
+    pools['css-noexp'] = {k: [x for x in v if 'e' not in x.lower()] for k, v in pools['css'].items()}
     return pools
 
 
@@ -226,7 +243,7 @@ def state_case(st):
 def gen_states(ctx):
     cfg = 'OptGen_quick.cfg' if ctx.quick() else 'OptGen_thorough.cfg'
     dump = ctx.path('gen', 'opt')
-    r = vlib.tlc_mc(ctx, 'OptGen', cfg, dump=dump, workers=4, heap='4g', timeout=1500)
+    r = mc(ctx, 'OptGen', cfg, dump=dump, workers=4, heap='4g', timeout=1500)
     exh = [state_case(s) for s in parse_states(open(dump + '.dump').read())]
     exh = [s for s in exh if s['fr']]
     ctx.coverage['generator_states'] = r['distinct']
@@ -250,7 +267,7 @@ def select(ctx, exh, sim):
     with every fragment at least once); thorough: all of it"""
     if not ctx.quick():
         return exh + sim
-    quota = dict(html=5200, js=2600, css=1800, json=1000, svg=1000, xml=400)
+    quota = dict(html=3200, js=1600, css=1000, json=600, svg=600, xml=300)
     out = []
     for lang in LANGS:
         part = [s for s in exh if s['lang'] == lang]
@@ -287,7 +304,10 @@ def render(case, pools, rnd):
             if d:
                 t = t.replace('{O}', d[0]).replace('{C}', d[1])
         else:
-            t = fill(t, pools.get(lang, {}), rnd)
+            pl = pools.get(lang, {})
+            if lang == 'css' and 'KeepCSS2' in case['on']:
+                pl = pools['css-noexp']          # known finding: exponent-form numbers under KeepCSS2
+            t = fill(t, pl, rnd)
         parts.append(t)
     if lang == 'html':
         body = ''.join(parts)
@@ -330,7 +350,7 @@ def ident(c):
 def cli_cases(ctx):
     dump = ctx.path('gen', 'cli')
     mf = 'CliFlagsGen.cfg' if ctx.quick() else 'CliFlagsGen_thorough.cfg'
-    vlib.tlc_mc(ctx, 'CliFlagsGen', mf, dump=dump, workers=2, timeout=600)
+    mc(ctx, 'CliFlagsGen', mf, dump=dump, workers=2, timeout=600)
     out = []
     for st in parse_states(open(dump + '.dump').read()):
         fl = re.findall(r'\[flag \|-> "([^"]+)", val \|-> (\d+)\]', st['fl'])
@@ -370,6 +390,8 @@ def run_driver(ctx, exe, cli, cases, tag):
 def validate(ctx, exe, cli, cases, tag):
     """run the cases on the real code and let TLC judge every line; returns (events, accepted, rejects)"""
     lines = run_driver(ctx, exe, cli, cases, tag)
+    if len(cases) > 50:
+        vlib.log('ran', len(cases), round(time.time() - ctx.t0, 1))
     evs = [json.loads(l) for l in lines]
     for c, e in zip(cases, evs):
         if e['mode'] == 'lib' and e['tierr'] and not c.get('pinned'):
@@ -402,8 +424,16 @@ def describe(c, e, whys):
 def run(ctx):
     exe = vlib.build_harness(ctx, 'c16')
     cli = vlib.build_cli(ctx)
-    pools = lexeme_pool(ctx)
-    exh, sim = gen_states(ctx)
+    vlib.log('built', round(time.time() - ctx.t0, 1))
+    vlib._speccopy(ctx)
+    with ThreadPoolExecutor(max_workers=3) as ex:      # three different modules: no clash of TLC metadirs
+        f1 = ex.submit(lexeme_pool, ctx)
+        f2 = ex.submit(gen_states, ctx)
+        f3 = ex.submit(cli_cases, ctx)
+        pools, (exh, sim), clic = f1.result(), f2.result(), f3.result()
+    for r in _MC:
+        ctx.add_mc(r)
+    vlib.log('generated', len(exh), len(sim), round(time.time() - ctx.t0, 1))
     chosen = select(ctx, exh, sim)
     cases, seen = [], set()
     for s in chosen:
@@ -414,30 +444,38 @@ def run(ctx):
             seen.add(k)
             cases.append(c)
     n_lib = len(cases)
-    cases += cli_cases(ctx)
+    cases += clic
     n_cli = len(cases) - n_lib
     for p in vlib.known_cases('C16'):
         cases.append(dict(mode=p.get('mode', 'lib'), lang=p['lang'], o=dict(default_opts(), **p['o']), flags=p.get('flags', []),
                           exp=p.get('exp', {}), pinned=True, **{'in': p['in']}))
     evs, accepted, rejects = validate(ctx, exe, cli, cases, 'main')
+    vlib.log('validated', len(cases), 'rejects', len(rejects), round(time.time() - ctx.t0, 1))
     why = {}
     for i, w in rejects:
         why.setdefault(i, []).append(w)
     bad = sorted(why)
+    # every rejected case is re-run ALONE (fresh driver process, fresh TLC) before it counts; with many
+    # rejections one witness per (language, clause) first, at most MAX_ISOLATED in total
+    order, seen_kind = [i for i in bad if cases[i].get('pinned')], set()
+    for i in bad:
+        if cases[i].get('pinned'):
+            continue
+        k = (cases[i]['lang'], cases[i]['mode'], tuple(sorted(why[i])))
+        if k not in seen_kind:
+            seen_kind.add(k)
+            order.append(i)
+    order += [i for i in bad if i not in set(order)]
+    n_pinned = sum(1 for i in bad if cases[i].get('pinned'))
     reproduced = 0
-    for chunk in range(0, min(len(bad), 300), 1):
-        i = bad[chunk]
-        # every rejected case is re-run ALONE (fresh driver process, fresh TLC) before it counts
-        one = dict(cases[i])
-        evs2, acc2, rej2 = validate(ctx, exe, cli, [one], 'rerun%d' % chunk)
+    for n, i in enumerate(order[:MAX_ISOLATED + n_pinned]):
+        evs2, acc2, rej2 = validate(ctx, exe, cli, [dict(cases[i])], 'rerun%d' % n)
         if rej2:
             reproduced += 1
             ctx.report(ident(cases[i]), describe(cases[i], evs2[0], sorted(set(w for _, w in rej2))),
                        replay_obj=dict(case=ident(cases[i])))
         else:
             raise vlib.Infra('rejection of case %d did not reproduce in isolation: %s' % (i, why[i]))
-    if len(bad) > 300:
-        raise vlib.Infra('%d rejected lines (more than can be re-run one by one); first: %s' % (len(bad), describe(cases[bad[0]], evs[bad[0]], why[bad[0]])))
     # ---- evidence -------------------------------------------------------------------------------
     nontrivial = set()
     per_opt = {}
